@@ -45,6 +45,6 @@ def one(name):
 
 
 names = sorted(d for d in os.listdir(H) if os.path.isdir(os.path.join(H, d)))
-with ThreadPoolExecutor(4) as ex:
+with ThreadPoolExecutor(int(os.environ.get("SEED_JOBS", "4"))) as ex:
     for name, res in ex.map(one, names):
         print(name, res, flush=True)
